@@ -122,10 +122,11 @@ Proof. vm_compute. reflexivity. Qed.
 Example C13_ex2 : ev0 "(+ 9223372036854775807 1)" = Err ERange.
 Proof. vm_compute. reflexivity. Qed.
 
-(* REFUTED (known finding D52): "a call with a float argument computes in floats"  *)
-(* fails of the faithful model: integer or float arithmetic is chosen per fold step,  *)
-(* so integer steps before the first float argument overflow (or truncate)            *)
-Example C13_contagion_for_the_whole_call_refuted :
+(* An n-ary call is the LEFT FOLD of the binary operation: integer or float          *)
+(* arithmetic is chosen per step, so integer steps before the first float argument    *)
+(* overflow (or truncate) - the reading "a float argument anywhere makes the whole     *)
+(* call compute in floats" does not hold of the model (nor of the code)               *)
+Example C13_contagion_is_per_step_not_per_call :
   ev0 "(+ 9223372036854775807 1 (expt 2 1))" = Err ERange /\
   (exists b, ev0 "(+ 9223372036854775807 (expt 2 1) 1)" = Ok (Flt b)).
 Proof. vm_compute. split; [reflexivity|eexists; reflexivity]. Qed.
